@@ -21,11 +21,14 @@ from ..core import Ctx, Infra, enc, subprocess_env, VERIF
 
 USES_TABLES = True
 
-THEOREMS = ["Builder.documented_eq_bound", "Builder.kind_eq", "Builder.kind_eq_iff", "Builder.docstring_eq",
-            "Builder.infer_type_sound", "Builder.infer_elements_sound", "Builder.exception_eq",
+THEOREMS = ["Builder.sim", "Builder.documented_eq_bound_partial", "Builder.kind_eq", "Builder.kind_eq_iff",
+            "Builder.exception_eq_partial", "Builder.exception_table_sound", "Builder.docstring_eq_partial",
+            "Builder.value_eq", "Builder.infer_type_sound", "Builder.infer_elements_sound", "Builder.infer_none_iff",
             "Builder.documented_eq_bound_setter_counterexample", "Builder.documented_eq_bound_annotation_counterexample",
-            "Builder.documented_eq_bound_inherited_counterexample", "Builder.exception_eq_counterexample",
-            "Builder.docstring_eq_counterexample", "Builder.kind_eq_counterexample"]
+            "Builder.documented_eq_bound_inherited_counterexample", "Builder.documented_eq_bound_tail_counterexample",
+            "Builder.documented_eq_bound_rebinding_counterexample", "Builder.documented_eq_bound_overload_counterexample",
+            "Builder.exception_eq_counterexample", "Builder.docstring_eq_counterexample", "Builder.kind_eq_counterexample",
+            "Builder.oldstyle_double_wrap_asserts"]
 RULE = ("generated multi-module packages (package __init__, 1-3 modules, optional subpackage; a fixed helper module with "
         "identity decorators and a context manager): module/class-level class (external bases drawn from every exception "
         "name of builtins and a few non-exceptions, user bases within and across modules), def/async def with decorators "
@@ -46,7 +49,7 @@ ASSUMPTIONS = [
     "inspect.cleandoc is modelled by Lineno.cleandoc (tied to CPython by C16's stream and again here through every generated docstring)",
 ]
 PARTIAL = {
-    "Builder.documented_eq_bound": "hypothesis Subset.inSubset: each name bound once per scope (old-style wrapping of a plain method allowed once), "
+    "Builder.documented_eq_bound_partial": "hypothesis Subset.inSubset: each name bound once per scope (old-style wrapping of a plain method allowed once), "
         "no @x.setter/@x.deleter/@overload, no bare annotation, decorators bare classmethod/staticmethod/property in a class (at most one per def) or identity "
         "decorators not named *property, else/finally parts bind nothing, no assigned class attribute shadowing an inherited method/class, "
         "exception tables agree on the reachable external base names, no string statement right after a property. Each excluded construct has a counterexample theorem; "
@@ -64,6 +67,8 @@ def deco2(f):
     return f
 def log_property(f):
     return f
+def my_staticmethod(f):
+    return f
 def dfac(*a):
     def w(f):
         return f
@@ -75,10 +80,10 @@ class ctx:
     def __exit__(self, *a):
         return False
 '''
-IMPORTED = {"builtins", "overload", "deco", "deco2", "dfac", "ctx", "log_property", "_decos"}
+IMPORTED = {"builtins", "overload", "deco", "deco2", "dfac", "ctx", "log_property", "my_staticmethod", "_decos"}
 TARGETS = {"_i", "_cm"}
 HEADER = ["import builtins", "from typing import overload",
-          "from pk._h import deco, deco2, dfac, ctx, log_property, _decos"]
+          "from pk._h import deco, deco2, dfac, ctx, log_property, my_staticmethod, _decos"]
 
 EXC_COMMON = ["Exception", "ValueError", "KeyError", "RuntimeError", "TypeError", "Warning", "BaseException", "LookupError"]
 NON_EXC = ["object", "dict", "list"]
@@ -276,7 +281,8 @@ class ProjGen:
     # ---- statements
     def gen_decos(self, sc: Scope, name: str, local_classes) -> list:
         rng = self.rng
-        opaque = [("o", "deco"), ("o", "deco2"), ("o", "dfac"), "un"]
+        opaque = [("o", "deco"), ("o", "deco2"), ("o", "dfac"), "un", ("o", "deco"), ("o", "deco2"), ("o", "dfac"), "un",
+                  ("o", "my_staticmethod")]
         if not sc.in_class:
             r = rng.random()
             if self.chance(0.1):
@@ -322,7 +328,10 @@ class ProjGen:
             return
         out.append(("def", name, is_async, decos, doc, extra))
         seen[name] = "attr" if any(d in ("p", "P") or d == ("o", "log_property") for d in decos) and sc.in_class else "nonattr"
-        if sc.in_class and "p" in decos and self.chance(0.5):
+        if sc.in_class and decos == ["p"] and self.chance(0.12):
+            sc.label(name, "string-after-property")
+            out.append(("str", gen_doc(rng, "    " * indent_depth)))
+        elif sc.in_class and [d for d in decos if d in ("c", "s", "p", "C", "S", "P")][:1] == ["p"] and self.chance(0.5):
             # the usual property protocol: same name
             for kind in rng.sample(["set", "del"], rng.randint(1, 2)):
                 sc.label(name, "setter")
@@ -553,7 +562,7 @@ class ProjGen:
                 out.append(ind + head)
                 out += self.emit(body, d + 1) or [ind + "    pass"]
                 if kind == "t":
-                    out += [ind + "except Exception:", ind + "    pass"]
+                    out += [ind + "except ZeroDivisionError:", ind + "    pass"]
                 if tail:
                     out.append(ind + {"i": "else:", "t": "finally:", "f": "else:"}[kind])
                     out += self.emit(tail, d + 1)
@@ -621,6 +630,35 @@ def env_token(env: Dict[int, list]) -> str:
         return "-"
     return ";".join("%d=%s" % (cid, ",".join(("e" + enc(b[1])) if b[0] == "e" else "u%d" % b[1] for b in bs))
                     for cid, bs in sorted(env.items()))
+
+
+def label_strings(sc: Scope, inh: Set[str] = frozenset()) -> None:
+    """mark the properties that a string statement follows while `currentAttr` still points at them
+    (for classifying a docstring difference; the verdict itself comes from the comparison with CPython)"""
+    cur: List[Optional[str]] = [None]
+    bound_here: Set[str] = set()
+
+    def walk(stmts: list) -> None:
+        for s in stmts:
+            k = s[0]
+            if k in ("def", "class"):
+                bound_here.add(s[1])
+            if k == "def":
+                isprop = sc.in_class and any(d in ("p", "P") or d == ("o", "log_property") for d in s[3])
+                cur[0] = s[1] if isprop else None
+            elif k == "class":
+                cur[0] = None
+            elif k in ("asg", "ann"):
+                if not (sc.in_class and s[1] in inh and s[1] not in bound_here):
+                    cur[0] = None          # else: _maybeAttribute refuses the name and currentAttr stays
+                    bound_here.add(s[1])
+            elif k == "str":
+                if cur[0] is not None:
+                    sc.label(cur[0], "string-after-property")
+                cur[0] = None
+            elif k == "blk":
+                walk(s[2])
+    walk(sc.stmts)
 
 
 def nontrivial(stmts: list) -> bool:
@@ -734,7 +772,7 @@ def ann_parts(ann: str) -> Tuple[str, Optional[List[str]]]:
 
 
 def oracle_scope(ctx: Ctx, sc: Scope, pd: Dict[str, Dict[str, Any]], py: Dict[str, Dict[str, Any]], in_subset: bool,
-                 files: Dict[str, str]) -> None:
+                 files: Dict[str, str], inh: Set[str] = frozenset()) -> None:
     inp = {"scope": sc.qname, "files": files}
 
     def excused(name: str) -> Optional[str]:
@@ -765,7 +803,7 @@ def oracle_scope(ctx: Ctx, sc: Scope, pd: Dict[str, Dict[str, Any]], py: Dict[st
                 report("invented-member:other", n, "documents %r which Python does not bind" % n)
     for n, d in pyn.items():
         if n not in pd:
-            if "shadows-inherited" in sc.labels.get(n, ()):
+            if n in inh and d["kind"] == "variable":
                 report("missing-member:shadows-inherited", n, "class attribute %r (assigned a literal) is not documented because a base class has a method/class of that name" % n)
             else:
                 report("missing-member:other", n, "Python binds %r, pydoctor does not document it" % n)
@@ -810,7 +848,7 @@ def oracle_scope(ctx: Ctx, sc: Scope, pd: Dict[str, Dict[str, Any]], py: Dict[st
 
 # --------------------------------------------------------------------------- kernel streams
 
-DECO_ALPHABET = ["c", "s", "p", "C", "S", "P", ("o", "deco"), ("o", "log_property"), "un", "ov"]
+DECO_ALPHABET = ["c", "s", "p", "C", "S", "P", ("o", "deco"), ("o", "log_property"), ("o", "my_staticmethod"), "un", "ov"]
 
 
 def kernel_decorators(ctx: Ctx) -> None:
@@ -820,8 +858,6 @@ def kernel_decorators(ctx: Ctx) -> None:
     combos = [()]
     for n in (1, 2, 3):
         combos += list(itertools.product(DECO_ALPHABET, repeat=n))
-    if ctx.quick:
-        combos = [c for c in combos if len(c) < 3] + ctx.rng.sample([c for c in combos if len(c) == 3], 150)
     pre = "\n".join(HEADER).replace("from pk._h import", "from h import") + "\n"
     reqs, impls, pay = [], [], []
     cls_lines, mod_lines = ["class C:"], []
@@ -917,17 +953,57 @@ def run(ctx: Ctx) -> None:
     kernel_decorators(ctx)
     kernel_infer(ctx)
     nproj = 330 if ctx.quick else 10000
-    B = 110 if ctx.quick else 500
-    done = 0
-    while done < nproj:
-        batch = []
-        for _ in range(min(B, nproj - done)):
-            g = ProjGen(ctx.rng, odd=ctx.rng.choice([0.0, 0.35, 0.35, 1.0]))
-            files, mods = g.project()
-            batch.append((g, files, mods))
-        done += len(batch)
-        pyres = run_cpython([{"files": f, "modules": ["pk._h"] + m, "details": True} for _, f, m in batch])
-        run_batch(ctx, batch, pyres)
+    per = 110 if ctx.quick else 125
+    chunks = [(ctx.tier, ctx.seed, i, min(per, nproj - i * per), ctx.model_ok) for i in range((nproj + per - 1) // per)]
+    import multiprocessing as mp
+    with mp.get_context("fork").Pool(min(16, len(chunks))) as pool:
+        for st in pool.imap(_worker, chunks):
+            if "infra" in st:
+                raise Infra(st["infra"])
+            merge(ctx, st)
+
+
+def _worker(args) -> Dict[str, Any]:
+    """one chunk of packages in its own process (own PRNG stream derived from the seed and the chunk index)"""
+    import contextlib, io, random
+    tier, seed, idx, n, model_ok = args
+    sub = Ctx("C03", tier, seed)
+    sub.rng = random.Random("C03:%d:%d" % (seed, idx))
+    sub.model_ok = model_ok
+    try:
+        with contextlib.redirect_stdout(io.StringIO()):
+            batch = []
+            for _ in range(n):
+                g = ProjGen(sub.rng, odd=sub.rng.choice([0.0, 0.35, 0.35, 1.0]))
+                files, mods = g.project()
+                batch.append((g, files, mods))
+            pyres = run_cpython([{"files": f, "modules": ["pk._h"] + m, "details": True} for _, f, m in batch])
+            run_batch(sub, batch, pyres)
+    except Infra as e:
+        return {"infra": str(e)}
+    return {"dist": sub.dist, "failures": sub.failures, "disagreements": sub.disagreements, "evaluations": sub.evaluations,
+            "nontrivial": sub.nontrivial, "samples": sub.samples, "traces": sub.traces_validated,
+            "lines": sub.driver.lines_run, "extra": sub.extra}
+
+
+def merge(ctx: Ctx, st: Dict[str, Any]) -> None:
+    for k, v in st["dist"].items():
+        ctx.dist[k] = ctx.dist.get(k, 0) + v
+    for f in st["failures"]:
+        for g in ctx.failures:
+            if g["signature"] == f["signature"]:
+                g["count"] += f["count"]
+                break
+        else:
+            ctx.failures.append(f)
+    ctx.disagreements += st["disagreements"][:max(0, 50 - len(ctx.disagreements))]
+    ctx.evaluations += st["evaluations"]
+    ctx.nontrivial |= st["nontrivial"]
+    ctx.samples += st["samples"][:max(0, 6 - len(ctx.samples))]
+    ctx.traces_validated += st["traces"]
+    ctx.driver.lines_run += st["lines"]
+    ex = ctx.extra.setdefault("not_importable_examples", [])
+    ex += st["extra"].get("not_importable_examples", [])[:max(0, 3 - len(ex))]
 
 
 def run_batch(ctx: Ctx, batch, pyres) -> None:
@@ -959,6 +1035,7 @@ def run_batch(ctx: Ctx, batch, pyres) -> None:
                 ctx.fail("scope-missing", {"files": files, "scope": sc.qname}, "namespace %s: pydoctor %s, CPython %s" % (sc.qname, obj is not None, pyd is not None))
                 continue
             inh = inherited_nonattr(obj) if sc.in_class else []
+            label_strings(sc, set(inh))
             head = "%s%d %s %s " % ("C" if sc.in_class else "M", 1 if sc.in_block else 0,
                                      ",".join(enc(n) for n in inh) or "-", envt)
             toks = " ".join(stmt_tokens(sc.stmts))
@@ -971,7 +1048,7 @@ def run_batch(ctx: Ctx, batch, pyres) -> None:
             impl_py.append(pyl)
             sub_reqs.append("builder subset " + head + toks)
             pay.append({"scope": sc.qname, "files": files, "request": head + toks})
-            meta.append((sc, pdinfo, pyinfo, files))
+            meta.append((sc, pdinfo, pyinfo, files, set(inh)))
             nt = nontrivial(sc.stmts)
             ctx.case(head + toks, nt, {"scope": sc.qname, "source": files[[k for k in files if k != "pk/_h.py"][0]][:400],
                                        "pydoctor": pdl[:300], "cpython": pyl[:300]} if nt and len(ctx.samples) < 3 else None)
@@ -986,13 +1063,13 @@ def run_batch(ctx: Ctx, batch, pyres) -> None:
     ctx.compare("builder-scope", reqs_pd, impl_pd, pay)
     ctx.compare("pysem-scope", reqs_py, impl_py, pay)
     verdicts = ctx.driver.run_parallel(sub_reqs) if ctx.model_ok else ["out"] * len(sub_reqs)
-    for v, (sc, pdinfo, pyinfo, files) in zip(verdicts, meta):
+    for v, (sc, pdinfo, pyinfo, files, inh) in zip(verdicts, meta):
         ctx.count("subset:" + v)
-        if v == "in" and sc.labels:
+        if v == "in" and any(x - {"shadows-inherited"} for x in sc.labels.values()):
             # the generator's labels and the Lean predicate must agree on what is outside the subset
             ctx.disagree("subset-labels", {"scope": sc.qname, "labels": {k: sorted(x) for k, x in sc.labels.items()}, "files": files}, "in", "labelled")
         before = len(ctx.failures), sum(f["count"] for f in ctx.failures)
-        oracle_scope(ctx, sc, pdinfo, pyinfo, v == "in", files)
+        oracle_scope(ctx, sc, pdinfo, pyinfo, v == "in", files, inh)
         after = len(ctx.failures), sum(f["count"] for f in ctx.failures)
         if v == "in" and before != after:
             ctx.fail("theorem-region-mismatch", {"scope": sc.qname, "files": files},
